@@ -245,7 +245,9 @@ static void end_pushes (void) {
 static void initialize_push (void) {
 
   int what = mem_block[current_block].block[push_start];
-  int arg = mem_block[current_block].block[push_start + 1];
+  /* F_CONST0 and F_CONST1 have no operand: when one of them is the last byte
+   * of the block there is nothing behind it to read */
+  int arg = (what == F_CONST0 || what == F_CONST1) ? 0 : mem_block[current_block].block[push_start + 1];
 
   prog_code = mem_block[current_block].block + push_start;
   ins_byte (F_PUSH);
